@@ -207,7 +207,9 @@ package orda
 // the key of a member is the Hash of its (valid) order time
 //@ pred keyTie(L *listSnapshot) = forall n *orderedNode :: {n.$list} inList(L, n) ==> allocated(n.O) && validTS(n.O) && n.$key == keyOf(n.O)
 // values: the head is a tombstone without time; every other member carries a valid value time
-//@ pred valuesWF(L *listSnapshot) = tnOf(on(L.head)).V == nil && (forall n *orderedNode :: {n.$list} inList(L, n) && n != on(L.head) ==> tnOf(n).T != nil && allocated(tnOf(n).T) && validTS(tnOf(n).T))
+//@ pred valuesTimed(L *listSnapshot) = forall n *orderedNode :: {n.$list} inList(L, n) && n != on(L.head) ==> tnOf(n).T != nil && validTS(tnOf(n).T)
+//@ pred valuesAlloc(L *listSnapshot) = forall n *orderedNode :: {n.$list} inList(L, n) && n != on(L.head) ==> allocated(tnOf(n).T)
+//@ pred valuesWF(L *listSnapshot) = tnOf(on(L.head)).V == nil && valuesTimed(L) && valuesAlloc(L)
 //@ pred listWF(L *listSnapshot) = linkWF(L) && indexWF(L) && keyTie(L) && valuesWF(L) && L.BaseDatatype != nil
 
 //@ func (*orderedNode).insertNext
@@ -378,7 +380,9 @@ package orda
 //@   loop 0 invariant[link] linkWF(its)
 //@   loop 0 invariant[index] indexWF(its)
 //@   loop 0 invariant[keys] keyTie(its)
-//@   loop 0 invariant[values] valuesWF(its)
+//@   loop 0 invariant[values-head] tnOf(on(its.head)).V == nil
+//@   loop 0 invariant[values-times] valuesTimed(its)
+//@   loop 0 invariant[values-alloc] valuesAlloc(its)
 //@   loop 0 invariant[target] target != nil && target.(*orderedNode) && inList(its, on(target)) && rangeindex + 1 <= len(tts)
 //@   loop 0 invariant[size] its.size == old(its.size) + rangeindex + 1
 //@   loop 0 invariant[never-reordered] forall n *orderedNode :: {n.$list} {old(n.$list)} old(inList(its, n)) ==> inList(its, n) && n.$pos == old(n.$pos)
@@ -386,17 +390,17 @@ package orda
 //@   loop 0 invariant[inserted] forall j int :: 0 <= j && j <= rangeindex ==> ttKey(tts[j]) in its.Map && newAt(its, tts, j).timedType == tts[j] && !old(inList(its, newAt(its, tts, j)))
 //@   loop 0 invariant[anchor] keyOf(pos) in its.Map && old(inList(its, on(its.Map[keyOf(pos)]))) && on(its.Map[keyOf(pos)]).$pos <= on(target).$pos
 //@   loop 0 invariant[new-after-anchor] forall n *orderedNode :: {n.$list} inList(its, n) && !old(inList(its, n)) ==> n.$pos <= on(target).$pos && on(its.Map[keyOf(pos)]).$pos < n.$pos
-//@   loop 0 invariant[newest-first] forall m *orderedNode :: {m.$pos} old(inList(its, m)) && on(its.Map[keyOf(pos)]).$pos < m.$pos && m.$pos <= on(target).$pos ==> tsLess(tnAs(tts[0]).T, m.O)
+//@   loop 0 invariant[newest-first] forall m *orderedNode :: {old(m.$list)} old(inList(its, m)) && on(its.Map[keyOf(pos)]).$pos < m.$pos && m.$pos <= on(target).$pos ==> tsLess(tnAs(tts[0]).T, m.O)
 //@   loop 0 invariant[stops-at-older] forall n *orderedNode :: {n.$list} inList(its, n) && !old(inList(its, n)) ==> n.next == nil || (inList(its, on(n.next)) && !old(inList(its, on(n.next)))) || !tsLess(tnAs(tts[0]).T, on(n.next).O)
 //@   loop 1 invariant[walk] target != nil && target.(*orderedNode) && inList(its, on(target)) && nextTarget == on(target).next && on(target$0).$pos <= on(target).$pos
-//@   loop 1 invariant[skipped-are-newer] forall m *orderedNode :: {m.$pos} old(inList(its, m)) && on(target$0).$pos < m.$pos && m.$pos <= on(target).$pos ==> tsLess(tnAs(tts[0]).T, m.O)
+//@   loop 1 invariant[skipped-are-newer] forall m *orderedNode :: {old(m.$list)} old(inList(its, m)) && on(target$0).$pos < m.$pos && m.$pos <= on(target).$pos ==> tsLess(tnAs(tts[0]).T, m.O)
 //@   ensures[found]           (result == nil) == old(keyOf(pos) in its.Map)
 //@   ensures[wf]              result == nil ==> listWF(its)
 //@   ensures[size]            result == nil ==> its.size == old(its.size) + len(tts)
 //@   ensures[never-reordered] forall n *orderedNode :: {n.$list} {old(n.$list)} old(inList(its, n)) ==> inList(its, n) && n.$pos == old(n.$pos)
 //@   ensures[inserted-once]   result == nil ==> forall j int :: 0 <= j && j < len(tts) ==> ttKey(tts[j]) in its.Map && newAt(its, tts, j).timedType == tts[j] && !old(inList(its, newAt(its, tts, j)))
 //@   ensures[after-anchor]    result == nil ==> forall n *orderedNode :: {n.$list} inList(its, n) && !old(inList(its, n)) ==> on(its.Map[keyOf(pos)]).$pos < n.$pos
-//@   ensures[newest-first]    result == nil ==> forall m *orderedNode, n *orderedNode :: {m.$pos, n.$list} old(inList(its, m)) && inList(its, n) && !old(inList(its, n)) && on(its.Map[keyOf(pos)]).$pos < m.$pos && m.$pos < n.$pos ==> tsLess(tnAs(tts[0]).T, m.O)
+//@   ensures[newest-first]    result == nil ==> forall m *orderedNode, n *orderedNode :: {old(m.$list), n.$list} old(inList(its, m)) && inList(its, n) && !old(inList(its, n)) && on(its.Map[keyOf(pos)]).$pos < m.$pos && m.$pos < n.$pos ==> tsLess(tnAs(tts[0]).T, m.O)
 //@   ensures[stops-at-older]  result == nil ==> forall n *orderedNode :: {n.$list} inList(its, n) && !old(inList(its, n)) ==> n.next == nil || (inList(its, on(n.next)) && !old(inList(its, on(n.next)))) || !tsLess(tnAs(tts[0]).T, on(n.next).O)
 //@   ensures[not-found-changes-nothing] result != nil ==> its.size == old(its.size) && (forall n *orderedNode :: {n.$list} n.$list == old(n.$list) && n.next == old(n.next))
 //@   modifies listSnapshot.size, map[string]orderedType, orderedNode.next, orderedNode.prev, orderedNode.$list, orderedNode.$pos, orderedNode.$key, alloc
